@@ -36,7 +36,7 @@ fn first_node_idx(list: &[Item]) -> usize {
     idx
 }
 
-fn make_include(cx: &mut Cx, list: &mut Vec<Item>, first: usize, dir: &str, depth: u32, st: &mut SplitState) {
+fn make_include(cx: &mut Cx, list: &mut Vec<Item>, first: usize, dir: &str, depth: u32, st: &mut SplitState, in_ifdata: bool) {
     let n = list.len() - first;
     // range [i, j) of the node run; empty ranges give empty include files
     let i = first + cx.tape.draw(n as u64 + 1) as usize;
@@ -83,21 +83,24 @@ fn make_include(cx: &mut Cx, list: &mut Vec<Item>, first: usize, dir: &str, dept
         // a decoy with different content at the CWD-relative location: the includer-relative file must win
         st.decoys.push((rel.clone(), "/begin DECOY this file must never be read /end DECOY\n".to_string()));
     }
-    let mut inc = IncRef { name, quoted, path, items: moved };
+    if in_ifdata {
+        cx.probe("include-inside-if_data");
+    }
+    let mut inc = IncRef { name, quoted, path, items: moved, in_ifdata };
     // nested includes inside the new file
     if depth < 3 && st.made < st.max_files {
-        split_list(cx, &mut inc.items, 0, &file_dir, depth + 1, st, 6);
+        split_list(cx, &mut inc.items, 0, &file_dir, depth + 1, st, 6, in_ifdata);
     }
     list.insert(i, Item::Inc(Box::new(inc)));
 }
 
-fn split_list(cx: &mut Cx, list: &mut Vec<Item>, first: usize, dir: &str, depth: u32, st: &mut SplitState, chance16: u64) {
+fn split_list(cx: &mut Cx, list: &mut Vec<Item>, first: usize, dir: &str, depth: u32, st: &mut SplitState, chance16: u64, in_ifdata: bool) {
     if st.made < st.max_files && cx.tape.chance(chance16, 16) {
-        make_include(cx, list, first, dir, depth, st);
+        make_include(cx, list, first, dir, depth, st, in_ifdata);
         // two includes back to back, sometimes
         if st.made < st.max_files && cx.tape.chance(1, 6) {
             let f = first_node_idx(list).max(first);
-            make_include(cx, list, f, dir, depth, st);
+            make_include(cx, list, f, dir, depth, st, in_ifdata);
         }
     }
     // descend into the remaining nodes of this file
@@ -106,13 +109,15 @@ fn split_list(cx: &mut Cx, list: &mut Vec<Item>, first: usize, dir: &str, depth:
             break;
         }
         if let Item::Node(n) = it {
-            if n.tag == "IF_DATA" || n.tag == "A2ML" {
+            if n.tag == "A2ML" {
                 continue;
             }
+            let child_in_ifdata = in_ifdata || n.tag == "IF_DATA";
             let f = first_node_idx(&n.body);
-            if f < n.body.len() || cx.tape.chance(1, 12) {
-                let ch = if n.tag == "PROJECT" || n.tag == "MODULE" { 10 } else { 2 };
-                split_list(cx, &mut n.body, f, dir, depth, st, ch);
+            // inside IF_DATA only where blocks follow (an include between scalar values is not "at an element boundary")
+            if f < n.body.len() || (!child_in_ifdata && cx.tape.chance(1, 12)) {
+                let ch = if n.tag == "PROJECT" || n.tag == "MODULE" { 10 } else if child_in_ifdata { 5 } else { 2 };
+                split_list(cx, &mut n.body, f, dir, depth, st, ch, child_in_ifdata);
             }
         }
     }
@@ -222,10 +227,10 @@ impl Scenario for C16Includes {
             g.document().into_iter().map(Item::Node).collect()
         };
         let mut st = SplitState { counter: 0, max_files: 1 + cx.tape.draw(6) as u32, made: 0, max_depth_reached: 0, decoys: Vec::new(), syntax: String::new() };
-        split_list(cx, &mut items, 0, "/work", 1, &mut st, 4);
+        split_list(cx, &mut items, 0, "/work", 1, &mut st, 4, false);
         if st.made == 0 {
             // make sure there is at least one include: split the content of the first MODULE or the top level
-            make_include(cx, &mut items, 0, "/work", 1, &mut st);
+            make_include(cx, &mut items, 0, "/work", 1, &mut st, false);
         }
         let a2ml_inc = cx.tape.chance(1, 3) && split_a2ml(cx, &mut items, "/work", &mut st);
         let mut root = render_file(&mut cx.tape, "/work/main.a2l", &items, &lo, 0);
